@@ -686,7 +686,9 @@ func (e *Engine) verifyFunc(ct *Contract) (c *Ctx, err error) {
 		if err != nil {
 			return c, err
 		}
+		c.inSpecAssume++
 		t := f.specEval(st, entry, ex, info)
+		c.inSpecAssume--
 		c.assume(st, t)
 	}
 	entry.pc = st.pc
